@@ -28,7 +28,18 @@ def _ref_for(graph):
 
 
 def _post(snap, res, graph, a, b, *, conditions=None):
-    C = set(conditions or ())
+    if conditions is None or isinstance(conditions, (set, frozenset, list, tuple, dict)):
+        C = set(conditions or ())
+    else:
+        # a one-shot iterable was consumed by the call: the driver's record of the query stands in for it
+        c = kernel.LOG.case
+        if isinstance(c, dict) and isinstance(c.get("C"), list) and not c.get("cf") and c.get("a") == str(a) and c.get("b") == str(b):
+            from .gen.graphs import node
+
+            C = {node(n) for n in c["C"]}
+        else:
+            kernel.count("C04:one-shot-conditions-not-judged")
+            return
     ref = _ref_for(graph)
     if a == b or a in C or b in C:
         kernel.count("C04:degenerate-query")
